@@ -29,7 +29,8 @@ Schemas == <<
   "defaults: {port: *8080 | int, host: string | *\"localhost\"}",
   "x: b: >0",
   "lst: [...{v: *0 | int}]",
-  "w: {kind: \"W\", spec: {replicas: *1 | int}}"
+  "w: {kind: \"W\", spec: {replicas: *1 | int}}",
+  "two: {m: *1 | *2 | int, lv: *\"info\" | *\"warn\" | string}"
 >>
 Data == <<
   "x: a: 5", "x: b: 1", "x: b: 2", "x: c: \"s\"",
@@ -39,7 +40,8 @@ Data == <<
   "z: b: 2", "z: a: 1",
   "defaults: port: 8080", "defaults: port: 9090", "defaults: host: \"localhost\"",
   "lst: [{v: 0}, {v: 2}]",
-  "w: spec: replicas: 1", "w: {kind: \"W\", spec: replicas: 3}"
+  "w: spec: replicas: 1", "w: {kind: \"W\", spec: replicas: 3}",
+  "two: m: 1", "two: lv: \"warn\"", "two: m: 3"
 >>
 NS == Len(Schemas)
 ND == Len(Data)
